@@ -91,6 +91,7 @@ class G:
         if kind == "delete" and mode == "main" and self.p(0.35):
             mode = "entry"  # delete() itself becomes one of the scheduled calls
         self.tail = []
+        self.auto_alias_used = False
         self.cls = cls
         if kind == "load":
             cls = self.cls = "MySQLQuery"
@@ -151,6 +152,10 @@ class G:
         item["fresh"] = True
         if variety and self.p(0.4):
             v = self.ch(["using", "cross", "on_field", "subq", "cte", "self", "usubq"])
+            if v == "usubq" and getattr(self, "auto_alias_used", False):
+                v = "subq"  # two automatic sqN aliases are numbered in call order by design: at most one per program
+            if v == "usubq":
+                self.auto_alias_used = True
             if v == "self":
                 # joining the FROM table to itself: the library aliases the joined occurrence "<name>2"
                 me = dict(base_tbl)
@@ -292,8 +297,9 @@ class G:
         if r < 0.7:
             return {"t": "table", "name": "d", "schema": "s"}
         sub = self.subq(cls)
-        if r < 0.85:
+        if r < 0.85 or getattr(self, "auto_alias_used", False):
             return {"t": "meth", "x": sub, "m": "as_", "a": ["sq9"]}
+        self.auto_alias_used = True
         return sub  # the library assigns sq0
 
     def jt(self):
@@ -354,6 +360,12 @@ class G:
                 A = [a for a in A if a["group"] != "where"]
             if self.p(0.2):
                 A.append({"group": "orderby", "calls": [self.order_call(TB)]})
+            if mode == "main" and self.p(0.4):
+                # the SELECT that feeds the INSERT joins further sources (every join form, constraint-free ones included)
+                js = [self.join_call(TB, TC, self.jt(), variety=True)]
+                if self.p(0.4):
+                    js.append({"m": "join", "item": dict(TD, fresh=True), "how": None, "fin": "cross", "a": []})
+                A.append({"group": "join", "calls": js})
         else:
             rows = [{"m": self.ch(["insert", "insert", "insert", "replace"]), "a": [self.val(), self.val()]}
                     for _ in range(self.rng.randint(1, 3))]
@@ -773,6 +785,21 @@ def check_order(names, table):
     return None
 
 
+def check_order_at(names, table):
+    """Like check_order, but returns (misplaced clause, the clause before it) or None."""
+    p = 0
+    prev = None
+    for nm in names:
+        q = p
+        while q < len(table) and table[q].rstrip("*") != nm:
+            q += 1
+        if q >= len(table):
+            return nm, prev
+        p = q if table[q].endswith("*") else q + 1
+        prev = nm
+    return None
+
+
 NEEDS_BODY = {"SELECT", "FROM", "WHERE", "PREWHERE", "GROUP BY", "HAVING", "ORDER BY", "LIMIT", "OFFSET", "FETCH NEXT",
               "SET", "VALUES", "RETURNING", "INTO", "JOIN", "INSERT", "UPDATE", "FORCE INDEX", "USE INDEX", "WITH"}
 
@@ -1009,9 +1036,124 @@ def items_with(prog, ai, keep_idx, clause, ctx, iq, bs):
 
 
 # ------------------------------------------------------------------ one run
+# ------------------------------------------------------------------ population mode: riders over rich statements
+def population_kind(o):
+    d = lib.state(o)
+    if not isinstance(d, dict):
+        return None
+    if sum(1 for k in ("_insert_table", "_update_table") if d.get(k) is not None) + (1 if d.get("_delete_from") else 0) > 1:
+        return None  # a chain that switched statement kind (insert(...).delete()): no order table applies
+    if d.get("_insert_table") is not None and not d.get("_select_into"):
+        return "insert"
+    if d.get("_update_table") is not None:
+        return "update"
+    if d.get("_delete_from"):
+        return "delete"
+    return "select"
+
+
+def population_riders(L, o, kd):
+    """Balance and clause-order riders on ONE rendered statement built by the general-purpose generator (nested
+    functions, CASE, JSON, arrays, intervals, sub-queries in every position, strings with quotes and backslashes)."""
+    cls = type(o).QUERY_CLS.__name__ if hasattr(type(o), "QUERY_CLS") else "Query"
+    if cls not in L.CTX:
+        return cls, None, []
+    ctx = L.CTX[cls]
+    iq = "`" if cls == "MySQLQuery" else '"'
+    bs = cls == "MySQLQuery"
+    try:
+        sql = o.get_sql(ctx)
+    except Exception:  # noqa: BLE001  raising at render is C14's business
+        return cls, None, []
+    if not sql:
+        return cls, sql, []
+    bad = []
+    try:
+        toks, cl = sqllex.top_clauses(sql, iq, bs, calls_are_terms=True)
+    except sqllex.LexError as e:
+        name = "balance"
+        if bs and "unterminated string" in str(e) and "\\'" in sql:
+            # MySQL: a backslash directly before the closing quote of a literal (the generic value wrapper, chosen when
+            # the value was wrapped, does not double backslashes)
+            name = "balance[backslash-quote]"
+        return cls, sql, [(name, f"{e}: {sql[:160]}")]
+    if kd == "qb":
+        kind = population_kind(o)
+        table = order_table(cls, kind) if kind else None
+        if table is not None:
+            names = [c[0] for c in cl]
+            miss = check_order_at(names, table)
+            if miss is not None:
+                # named by where it happens (SET>SELECT: a second SELECT keyword at the top level right after SET)
+                bad.append((f"clause-order[{miss[1]}>{miss[0]}]",
+                            f"{miss[0]} out of place or repeated after {miss[1]} in {' > '.join(names)}: {sql[:160]}"))
+    return cls, sql, bad
+
+
+def population_program(rng):
+    knobs = gen.default_knobs(rng, PROP)
+    knobs.update({"nops": rng.randint(2, 6), "p_stmt": 1.0, "focus": rng.choice(["qb", "qb", "setop", "ddl"]),
+                  "p_new": 0.5, "p_leaf": 0.0, "depth": rng.choice([2, 3, 4]), "select_subqueries_only": True})
+    env = lang.Env(share_tables=knobs["share_tables"])
+    g = gen.Gen(rng, knobs, env)
+    from . import engine
+    for _ in range(knobs["nops"]):
+        i = g.next_op()
+        env.heap.append(engine.exec_op(env, g.program[i]))
+    return g.program, env, knobs
+
+
+def population_run(seed, run, rng):
+    from . import engine, shrink
+    L = lib.get()
+    program, env, knobs = population_program(rng)
+    res = {"run": run, "config": "population", "violations": [], "harness": [], "discard": None, "merges": 0,
+           "calls": len(program), "actors": 0, "stats": collections.Counter(), "shape": None, "nontrivial": True,
+           "kind": "population", "cls": "*", "groups": []}
+    trail = []
+    for i, v in enumerate(env.heap):
+        if not engine.is_object_slot(v):
+            continue
+        kd = obs.kind_of(L, v)
+        if kd not in ("qb", "setop", "create", "drop", "load"):
+            continue
+        cls, sql, bad = population_riders(L, v, kd)
+        if sql is None:
+            continue
+        res["stats"]["population_statements"] += 1
+        trail.append(sql)
+        for name, detail in bad:
+            sig = f"{PROP}:rider:{name}:population" if name.startswith("clause-order") else f"{PROP}:rider:{name}:{cls}:population"
+            if any(x["signature"] == sig for x in res["violations"]):
+                continue
+            keep = sorted(lang.cone(program, i))
+            p2, mp = shrink.slice_program(program, keep)
+            res["violations"].append({"signature": sig, "payload": {
+                "property": PROP, "seed": seed, "run": run, "signature": sig, "kind": "population", "program": p2,
+                "victim": mp[i], "share_tables": knobs["share_tables"], "rider": name, "detail": detail}})
+    res["shape"] = runner.digest([op.get("op") + ":" + str(op.get("m", "")) for op in program])
+    res["digest"] = res["xdigest"] = runner.digest([program, trail])
+    return res, program
+
+
+def replay_population(payload):
+    from . import engine
+    L = lib.get()
+    env = engine.execute(payload["program"], share_tables=payload.get("share_tables", True))
+    v = env.heap[payload["victim"]]
+    if not engine.is_object_slot(v):
+        return False, "not reproduced (victim did not build)"
+    _, _, bad = population_riders(L, v, obs.kind_of(L, v))
+    if any(name == payload["rider"] for name, _ in bad):
+        return True, payload["signature"]
+    return False, "not reproduced"
+
+
 def one_run(seed, run, force_config=None, overrides=None):
     L = lib.get()
     rng = random.Random(gen.derive_seed(seed, run, 0xC13))
+    if rng.random() < 0.12:
+        return population_run(seed, run, rng)
     g = G(rng)
     prog = g.program()
     okw = {"inprocess": False}
@@ -1092,6 +1234,8 @@ def replay(payload):
     prog = payload["program"]
     okw = {"inprocess": False}
     kind = payload.get("kind")
+    if kind == "population":
+        return replay_population(payload)
     can = canonical(prog)
     if kind == "noncommuting":
         ref = outcome(prog, can, okw)
@@ -1120,7 +1264,7 @@ def replay(payload):
 
 # ------------------------------------------------------------------ batch / evidence
 TIERS = {
-    "quick": {"runs": 8000, "chunk": 50, "wall_cap": 900},
+    "quick": {"runs": 20000, "chunk": 50, "wall_cap": 900},
     "thorough": {"runs": 200000, "chunk": 200, "wall_cap": 5400},
 }
 
